@@ -1,4 +1,9 @@
 /* C18: format_duration(usecs, precision) for ALL 2^64 usecs x precision -128..6 (negative = default).
+ * Cells (case split outside the solver): MAG = magnitude class 0: < 1 min, 1: < 1 h, 2: < 1 day, 3: >= 1 day (usecs stays symbolic
+ * inside the class); PREC = -1 (any negative value, symbolic) or 0..6; NINT = number of integer digits (1|2) of the seconds text.
+ * CHECK 0: no exception + string surgery (formats, precision defaults, pad, result text), seconds text shape tied to the value;
+ * CHECK 1: integer field arithmetic (ranges, recomposition); CHECK 2: the double handed to "%.*lf" is exactly
+ *          (double)remaining_usecs / 1000000.  In CHECK 1/2 the shape of the seconds text is NOT tied to the value (any NINT).
  * libc's number formatting is a contract stub (vasprintf): it RECORDS the format and the numeric arguments and returns
  *   "%.*lf"(p, v)          -> an arbitrary string of the guaranteed shape: d+ if p == 0 else d+ '.' d{p}; the integer part has one
  *                             digit when v < 9, two when v >= 10, either when 9 <= v < 10 (rounding may carry); digits arbitrary
@@ -53,11 +58,19 @@ uint32_t X_vasprintf(uint8_t* outp_, uint8_t* fmt_, uint8_t* va_) {
     double v = va_arg(va, double);
     rec[k].kind = F_SEC; rec[k].prec = p; rec[k].val = v;
     ASSERT(p >= 0 && p <= 6, "precision handed to printf in 0..6");
+#if CHECK == 0
     ASSERT(v >= 0.0 && v < 60.0, "seconds value handed to printf in [0,60)");
+#endif
     ASSUME(p >= 0 && p <= 6);
+#ifdef NINT
+    int nint = NINT; /* cell: number of integer digits of the seconds text (case split outside the solver) */
+#else
     int nint = (int)in_range(1, 2);
+#endif
+#if CHECK == 0
     if (v < 9.0) ASSUME(nint == 1);
     if (v >= 10.0) ASSUME(nint == 2);
+#endif
     for (int i = 0; i < nint; i++) buf[n++] = (char)in_range('0', '9');
     if (p > 0) {
       buf[n++] = '.';
@@ -85,11 +98,24 @@ uint32_t X_vasprintf(uint8_t* outp_, uint8_t* fmt_, uint8_t* va_) {
 }
 
 #define US 1000000ULL
+#ifndef CHECK
+#define CHECK 0
+#endif
 void harness(void) {
   uint64_t usecs = in_u64();
-  int32_t p = (int32_t)in_irange(-128, 6);
-#ifdef USECS_LO
-  ASSUME(usecs >= USECS_LO && usecs <= USECS_HI); /* optional magnitude cell */
+#if MAG == 0
+  ASSUME(usecs < 60 * US);
+#elif MAG == 1
+  ASSUME(usecs >= 60 * US && usecs < 3600 * US);
+#elif MAG == 2
+  ASSUME(usecs >= 3600 * US && usecs < 86400 * US);
+#else
+  ASSUME(usecs >= 86400 * US);
+#endif
+#if PREC < 0
+  int32_t p = (int32_t)in_irange(-128, -1);
+#else
+  int32_t p = PREC;
 #endif
   uint8_t out[32];
   int64_t rc = w_format_duration(usecs, (uint32_t)p, out, sizeof(out));
@@ -98,33 +124,38 @@ void harness(void) {
   ASSERT(rc >= 0, "format_duration does not throw");
   if (rc < 0) return;
   for (int i = 0; i < rc; i++) OBS(out[i]);
-  if (usecs < 60 * US) {
-    ASSERT(ncall == 1 && rec[0].kind == F_SEC, "below one minute: a single %.*lf");
-    ASSERT(rec[0].prec == (p < 0 ? 6 : p), "precision (default 6 below one minute)");
-    ASSERT(rec[0].val == (double)usecs / 1000000.0, "seconds value == usecs / 10^6");
+  int kind = MAG == 0 ? F_SEC : MAG == 1 ? F_M : MAG == 2 ? F_HM : F_DHM;
+  int ok_calls = (MAG == 0) ? (ncall == 1 && rec[0].kind == F_SEC) : (ncall == 2 && rec[0].kind == F_SEC && rec[1].kind == kind);
+  ASSERT(ok_calls, "one %.*lf call for the seconds text, then (from one minute up) the format of the magnitude class");
+  if (!ok_calls) return;
+  /* integer fields handed to the formatter */
+  uint64_t d = 0, h = 0, m = 0;
+  if (kind == F_M) m = rec[1].iv[0];
+  else if (kind == F_HM) { h = rec[1].iv[0]; m = rec[1].iv[1]; }
+  else if (kind == F_DHM) { d = rec[1].iv[0]; h = rec[1].iv[1]; m = rec[1].iv[2]; }
+  uint64_t whole = d * 86400 * US + h * 3600 * US + m * 60 * US;
+#if CHECK == 0
+  ASSERT(rec[0].prec == (p < 0 ? (MAG <= 0 ? 6 : MAG == 1 ? 3 : 0) : p), "precision (defaults: 6 below one minute, 3 below one hour, else 0)");
+  if (MAG == 0) {
     ASSERT(rc == rec[0].ret_len, "result is the seconds text");
     for (int i = 0; i < rec[0].ret_len && i < rc; i++) ASSERT(out[i] == (uint8_t)rec[0].ret[i], "result is the seconds text");
-    return;
+  } else {
+    /* pad: "0" iff the seconds text has a one-digit integer part */
+    int one_digit = (rec[0].ret_len == 1) || (rec[0].ret[1] == '.');
+    ASSERT(rec[1].sarg_len == one_digit && (!one_digit || rec[1].sarg[0] == '0'), "pad is \"0\" iff seconds text has a one-digit integer part");
+    /* result = integer text + seconds text */
+    ASSERT(rc == rec[1].ret_len + rec[0].ret_len, "result length");
+    if (rc == rec[1].ret_len + rec[0].ret_len) {
+      for (int i = 0; i < rec[1].ret_len; i++) ASSERT(out[i] == (uint8_t)rec[1].ret[i], "result starts with the integer fields text");
+      for (int i = 0; i < rec[0].ret_len; i++) ASSERT(out[rec[1].ret_len + i] == (uint8_t)rec[0].ret[i], "result ends with the seconds text");
+    }
   }
-  int kind = usecs < 3600 * US ? F_M : usecs < 86400 * US ? F_HM : F_DHM;
-  ASSERT(ncall == 2 && rec[0].kind == F_SEC && rec[1].kind == kind, "seconds text first, then the format of the magnitude class");
-  if (!(ncall == 2 && rec[0].kind == F_SEC && rec[1].kind == kind)) return;
-  ASSERT(rec[0].prec == (p < 0 ? (kind == F_M ? 3 : 0) : p), "precision (default 3 below one hour, else 0)");
-  /* field arithmetic: ranges + recomposition */
-  uint64_t d = 0, h = 0, m = 0;
-  if (kind == F_M) { m = rec[1].iv[0]; ASSERT(m >= 1 && m < 60, "minutes field in [1,60)"); }
-  else if (kind == F_HM) { h = rec[1].iv[0]; m = rec[1].iv[1]; ASSERT(h >= 1 && h < 24, "hours field in [1,24)"); ASSERT(m < 60, "minutes field < 60"); }
-  else { d = rec[1].iv[0]; h = rec[1].iv[1]; m = rec[1].iv[2]; ASSERT(d >= 1 && d <= 213503982ULL, "days field"); ASSERT(h < 24, "hours field < 24"); ASSERT(m < 60, "minutes field < 60"); }
-  uint64_t whole = d * 86400 * US + h * 3600 * US + m * 60 * US;
-  ASSERT(whole <= usecs && usecs - whole < 60 * US, "fields recompose: usecs - (d,h,m) in [0, 60 s)");
+#elif CHECK == 1
+  if (kind == F_M) ASSERT(m >= 1 && m < 60, "minutes field in [1,60)");
+  if (kind == F_HM) { ASSERT(h >= 1 && h < 24, "hours field in [1,24)"); ASSERT(m < 60, "minutes field < 60"); }
+  if (kind == F_DHM) { ASSERT(d >= 1 && d <= 213503982ULL, "days field in [1, 2^64/86400e6]"); ASSERT(h < 24, "hours field < 24"); ASSERT(m < 60, "minutes field < 60"); }
+  ASSERT(whole <= usecs && usecs - whole < 60 * US, "fields recompose: usecs - (days, hours, minutes) in [0, 60 s)");
+#else
   ASSERT(rec[0].val == (double)(usecs - whole) / 1000000.0, "seconds value == remaining usecs / 10^6");
-  /* pad: "0" iff the seconds text has a one-digit integer part */
-  int one_digit = (rec[0].ret_len == 1) || (rec[0].ret[1] == '.');
-  ASSERT(rec[1].sarg_len == one_digit && (!one_digit || rec[1].sarg[0] == '0'), "pad is \"0\" iff seconds text has a one-digit integer part");
-  /* result = integer text + seconds text */
-  ASSERT(rc == rec[1].ret_len + rec[0].ret_len, "result length");
-  if (rc == rec[1].ret_len + rec[0].ret_len) {
-    for (int i = 0; i < rec[1].ret_len; i++) ASSERT(out[i] == (uint8_t)rec[1].ret[i], "result starts with the integer fields text");
-    for (int i = 0; i < rec[0].ret_len; i++) ASSERT(out[rec[1].ret_len + i] == (uint8_t)rec[0].ret[i], "result ends with the seconds text");
-  }
+#endif
 }
